@@ -19,6 +19,7 @@
 // checked against the byte written at that offset (running prefix check) and
 // the C06 invariants are asserted after every engine call.
 #include "common/tls_session.hpp"
+#include "common/tls_hello.hpp"
 
 using namespace vf;
 using namespace tls;
@@ -523,11 +524,166 @@ static void probe_f11()
 		else failf("%s", what.c_str());
 	}
 }
+// Report a reproduced, listed finding (KNOWN-FINDING) or fail (anything not listed is a violation).
+static void finding(const char *key, const std::string &what)
+{
+	if (known(key)) stats.known_finding(key, what);
+	else failf("%s", what.c_str());
+}
+
+// Probe: a renegotiation ClientHello WITHOUT renegotiation_info (and without the SCSV) sent to a
+// server that negotiated secure renegotiation in the first handshake.  RFC 5746 3.7: the server
+// MUST abort; the property says renegotiation is bound to the previous Finished values.
+static void probe_reneg_without_binding()
+{
+	Profile cp, sp;
+	cp.suites = { 0x009C }; sp.suites = { 0x009C };
+	cp.vmin = cp.vmax = sp.vmin = sp.vmax = 0x0303;
+	cp.layout = sp.layout = L_SPLIT;
+	BearClient c(cp);
+	BearServer s(sp);
+	VF_CHECK(c.reset() && s.reset(), "probe: reset");
+	Session S(&c, &s);
+	S.run(100000);
+	VF_CHECK(S.established && s.eng->reneg == 2, "probe: handshake");
+	wt::RecCodec out;
+	VF_CHECK(S.tap.live_codec(0, out), "probe: codec");
+	for (int variant = 0; variant < 1; variant++) {
+		ClientHelloSpec ch;
+		ch.suites = { 0x009C };
+		ch.add_sigalgs({ { 4, 1 } });
+		Bytes m = ch.message();
+		Bytes payload = out.encrypt(22, 0x0303, m.data(), m.size());
+		Bytes wire = { 22, 3, 3, (uint8_t)(payload.size() >> 8), (uint8_t)payload.size() };
+		wire.insert(wire.end(), payload.begin(), payload.end());
+		size_t off = 0;
+		Bytes answer;
+		for (int g = 0; g < 1000; g++) {
+			const uint8_t *p;
+			size_t n;
+			bool prog = false;
+			if ((n = s.wire_out_peek(&p)) > 0) { answer.insert(answer.end(), p, p + n); s.wire_out_ack(n); prog = true; }
+			size_t room = s.wire_in_room();
+			if (room && off < wire.size()) { size_t k = std::min(room, wire.size() - off); s.wire_in(wire.data() + off, k); off += k; prog = true; }
+			if (!prog || s.closed()) break;
+		}
+		// a correct server has failed by now; a ServerHello flight is more than a thousand bytes
+		if (!s.closed() && s.error() == 0 && answer.size() > 500)
+			finding("reneg-clienthello-without-reneg-info-accepted", "a server that negotiated secure renegotiation answers a renegotiation ClientHello carrying neither renegotiation_info nor the SCSV with a ServerHello flight (RFC 5746 3.7 requires an abort): the renegotiation is not bound to the previous Finished values");
+		else VF_CHECK(s.closed() && s.error() != 0, "probe: renegotiation ClientHello without renegotiation_info: server neither failed nor answered (state %#x, %zu bytes)", s.state(), answer.size());
+	}
+}
+
+// Probe: both applications ask for a renegotiation at the same moment (ClientHello and
+// HelloRequest cross on the wire).
+static void probe_simultaneous_reneg()
+{
+	for (int lay = 0; lay < 2; lay++) {
+		Profile cp, sp;
+		cp.suites = { 0xC02F }; sp.suites = { 0xC02F };
+		cp.layout = sp.layout = lay ? L_MONO : L_SPLIT;
+		BearClient c(cp);
+		BearServer s(sp);
+		VF_CHECK(c.reset() && s.reset(), "probe: reset");
+		Session S(&c, &s);
+		S.run(100000);
+		VF_CHECK(S.established, "probe: handshake");
+		bool rc = c.renegotiate(), rs = s.renegotiate();
+		VF_CHECK(rc && rs, "probe: renegotiate() refused (%d/%d)", (int)rc, (int)rs);
+		S.script[0].push_back(Item{ IT_WAIT_EPOCH, 2, true });
+		S.script[0].push_back(Item{ IT_WRITE, 50, true });
+		S.script[1].push_back(Item{ IT_WAIT_EPOCH, 2, true });
+		S.script[1].push_back(Item{ IT_WRITE, 60, true });
+		S.run(200000);
+		if (s.error() == BR_ERR_BAD_FINISHED || c.error() == BR_ERR_BAD_FINISHED || !(S.recvd[0] == 50 && S.recvd[1] == 60))
+			finding("simultaneous-renegotiation-bad-finished", fmt("renegotiation requested by both sides at once (ClientHello and HelloRequest cross): client error %d, server error %d, %zu/%zu bytes delivered afterwards - the client feeds the ignored HelloRequest into its handshake hash", c.error(), s.error(), S.recvd[0], S.recvd[1]));
+		if (s.error() || c.error()) return;
+	}
+}
+
+// Probe: after a local close(), a warning alert other than close_notify arrives, then application
+// data that was in flight; the data must be discarded and the closure stay clean.
+static void probe_warning_while_closing()
+{
+	Profile cp, sp;
+	cp.suites = { 0x009C }; sp.suites = { 0x009C };
+	cp.layout = sp.layout = L_SPLIT;
+	BearClient c(cp);
+	BearServer s(sp);
+	VF_CHECK(c.reset() && s.reset(), "probe: reset");
+	Session S(&c, &s);
+	S.run(100000);
+	VF_CHECK(S.established, "probe: handshake");
+	wt::RecCodec out;
+	VF_CHECK(S.tap.live_codec(1, out), "probe: codec");
+	c.close();
+	auto rec = [&](unsigned type, const Bytes &pt) { Bytes pl = out.encrypt((uint8_t)type, 0x0303, pt.data(), pt.size()); Bytes w = { (uint8_t)type, 3, 3, (uint8_t)(pl.size() >> 8), (uint8_t)pl.size() }; w.insert(w.end(), pl.begin(), pl.end()); return w; };
+	Bytes wire = rec(21, Bytes{ 1, 90 });            // warning: user_canceled
+	Bytes d = rec(23, Bytes(40, 0x61));
+	wire.insert(wire.end(), d.begin(), d.end());
+	Bytes cn = rec(21, Bytes{ 1, 0 });
+	wire.insert(wire.end(), cn.begin(), cn.end());
+	size_t off = 0;
+	for (int g = 0; g < 1000; g++) {
+		const uint8_t *p;
+		size_t n;
+		bool prog = false;
+		if ((n = c.wire_out_peek(&p)) > 0) { c.wire_out_ack(n); prog = true; }
+		while ((n = c.app_in_peek(&p)) > 0) { c.app_in_ack(n); prog = true; }
+		size_t room = c.wire_in_room();
+		if (room && off < wire.size()) { size_t k = std::min(room, wire.size() - off); c.wire_in(wire.data() + off, k); off += k; prog = true; }
+		if (!prog || c.closed()) break;
+	}
+	if (c.error() != 0)
+		finding("warning-alert-while-closing-ends-discard", fmt("after close(), a warning alert (not close_notify) followed by application data in flight ends the closure with error %d instead of discarding the data until the peer's close_notify", c.error()));
+	else VF_CHECK(c.closed(), "probe: closure did not complete (state %#x)", c.state());
+}
+
+// Probe: a client that declines a HelloRequest while one of its own records is only partly sent;
+// the server legitimately keeps sending application data.
+static void probe_declined_hello_request_then_data()
+{
+	Profile cp, sp;
+	cp.suites = { 0x009C }; sp.suites = { 0x009C };
+	cp.layout = sp.layout = L_SPLIT;
+	cp.flags = BR_OPT_NO_RENEGOTIATION;
+	BearClient c(cp);
+	BearServer s(sp);
+	VF_CHECK(c.reset() && s.reset(), "probe: reset");
+	Session S(&c, &s);
+	S.run(100000);
+	VF_CHECK(S.established, "probe: handshake");
+	wt::RecCodec out;
+	VF_CHECK(S.tap.live_codec(1, out), "probe: codec");
+	// a record of the client's own is assembled and only partly taken by the transport
+	Bytes mine(300, 0x55);
+	c.app_out(mine.data(), mine.size());
+	c.flush(false);
+	{ const uint8_t *p; size_t n = c.wire_out_peek(&p); if (n > 10) c.wire_out_ack(10); }
+	auto rec = [&](unsigned type, const Bytes &pt) { Bytes pl = out.encrypt((uint8_t)type, 0x0303, pt.data(), pt.size()); Bytes w = { (uint8_t)type, 3, 3, (uint8_t)(pl.size() >> 8), (uint8_t)pl.size() }; w.insert(w.end(), pl.begin(), pl.end()); return w; };
+	Bytes wire = rec(22, Bytes{ 0, 0, 0, 0 });       // HelloRequest
+	Bytes d = rec(23, Bytes(40, 0x62));
+	wire.insert(wire.end(), d.begin(), d.end());
+	size_t off = 0, got = 0;
+	for (int g = 0; g < 1000; g++) {
+		const uint8_t *p;
+		size_t n;
+		bool prog = false;
+		size_t room = c.wire_in_room();
+		if (room && off < wire.size()) { size_t k = std::min(room, wire.size() - off); c.wire_in(wire.data() + off, k); off += k; prog = true; }
+		else if ((n = c.wire_out_peek(&p)) > 0) { c.wire_out_ack(n); prog = true; }   // the transport catches up only afterwards
+		while ((n = c.app_in_peek(&p)) > 0) { got += n; c.app_in_ack(n); prog = true; }
+		if (!prog || c.closed()) break;
+	}
+	if (c.error() != 0)
+		finding("declined-hello-request-then-data", fmt("a client declining a HelloRequest while one of its own records is only partly sent treats the server's next application data record as unexpected (error %d) instead of delivering it", c.error()));
+	else VF_CHECK(got == 40, "probe: %zu of 40 bytes delivered after the declined HelloRequest", got);
+}
 static bool probes_done = false;
 
 void target_run(Tape &t)
 {
-	if (!probes_done) { probes_done = true; probe_f11(); }
+	if (!probes_done) { probes_done = true; probe_f11(); probe_reneg_without_binding(); probe_simultaneous_reneg(); probe_warning_while_closing(); probe_declined_hello_request_then_data(); }
 	unsigned m = t.u8() % 8;
 	if (m < 2) mode_close(t);
 	else if (m < 4) mode_cut(t);
